@@ -205,8 +205,22 @@ func hookFn(point string, ch *gomavlib.Channel) {
 }
 
 // hookReset prepares the hook for a scenario.
+// hookOff != 0: scenarios run without any hook installed. The hook function takes a process-wide mutex, and a mutex
+// orders the goroutines that pass through it: under the race detector that hides races between library goroutines
+// (reader of one channel / writer of another) that hit hook points in between. C15 runs most of its workloads this way.
+var hookOff int32
+
 func hookReset(seed uint64, perturb, trace bool) {
 	h := hook
+	if atomic.LoadInt32(&hookOff) != 0 {
+		h.mu.Lock()
+		h.hits = map[string]int{}
+		h.trace = nil
+		h.trapPt, h.trapK, h.trapDone = "", 0, true
+		h.mu.Unlock()
+		gomavlib.VerifSetHook(nil)
+		return
+	}
 	h.mu.Lock()
 	h.hits = map[string]int{}
 	h.trace = nil
